@@ -267,6 +267,11 @@ class _ReusablePoolExecutor(ProcessPoolExecutor):
             ):
                 time.sleep(1e-3)
 
+            # The executor may also have been flagged as broken or shutdown
+            # while waiting for the workers to leave.
+            if self._flags.broken or self._flags.shutdown:
+                return
+
             # Spawn the missing workers under the management lock, as submit()
             # does: a new worker must be registered in self._processes before
             # it is allowed to announce an idle-timeout exit, otherwise the
